@@ -675,15 +675,10 @@ theorem forward_done_implies_window_covered (h : WF U W) {oldest : Block} {v : V
   have hv := h.txs_valid A hAU x hx
   exact inv.track A (inv.chain A hA (by omega)) x hx hexp
 
-/-- **Backward completion, window level (partial).** If the blocks given to the window cover
-every ancestor-or-self of the current target `t` with timestamp `≥ oldestAllowed t.ts`, the full
-C09 invariant holds at `t`. PARTIAL: the coverage premise `hcover` is what `Sync.done` by a
-closed channel provides (`closed_covers_min` below: the emitted = saved blocks reach the first
-ancestor older than the minimum timestamp in force, or genesis; `FInv.chain` covers everything
-newer than `oldestBlock`), but composing these through `Sync.run` with interleaved targets
-(`pendingMin ≤ oldestAllowed` of the current target), storage failures and the client/syncer
-correspondence is not mechanised. -/
-theorem backfill_done_implies_window_covered_partial (h : WF U W) {oldest : Block} {v : VW}
+/-- Window level: if the blocks given to the window cover every ancestor-or-self of the
+current target `t` with timestamp `≥ oldestAllowed t.ts`, the full C09 invariant holds at `t`.
+(The coverage premise is discharged from `Sync.done` in `backfill_done_implies_window_covered`.) -/
+theorem window_covered_of_cover (h : WF U W) {oldest : Block} {v : VW}
     {t : Block} {got : List Block} (hf : Fwd U W oldest v t got)
     (hcover : ∀ A, Anc U A t → oldestAllowed W t.ts ≤ A.ts → A ∈ got) : SeenInv U v t := by
   have inv := fwd_inv h hf
@@ -733,6 +728,608 @@ theorem target_done_iff (s : Sync) (t : Block) (hs : s.fwdDone = false) :
   by_cases hr : forwardRule W s.oldest t = true
   · simp [hr]; simpa [forwardRule] using hr
   · simp [hr, hs]; simpa [forwardRule] using hr
+
+/-! ### end to end: `Sync.done` ⇒ the validity window of the current target is covered
+
+The syncer machine is run over an arbitrary list of operations: peer answers (`ev`: any error
+or any list of byte strings; the minimum timestamp the client sees is the one the syncer
+stored, `Sync.effMin none`) and forward targets (`tgt`, each a tree block extending the previous
+target), with storage failing from any index on (`failAt`). -/
+
+/-- `l` is the list of all proper ancestors of `b` in the tree, nearest first, down to a block
+of height 0 (the real hash-linked ancestry). -/
+def AncList (U : Universe) : Block → List Block → Prop
+  | b, [] => b.height = 0
+  | b, p :: rest => U b.parent = some p ∧ AncList U p rest
+
+theorem ancList_linked (h : WF U W) : ∀ (l : List Block) (b : Block), AncList U b l →
+    Linked b.parent l := by
+  intro l
+  induction l with
+  | nil => intro b _; trivial
+  | cons p rest ih => intro b ⟨hp, hr⟩; exact ⟨h.id_eq _ _ hp, ih p hr⟩
+
+theorem ancList_anc (h : WF U W) : ∀ (l : List Block) (b : Block), AncList U b l →
+    ∀ a ∈ l, ∃ p, U b.parent = some p ∧ Anc U a p := by
+  intro l
+  induction l with
+  | nil => intro b _ a ha; simp at ha
+  | cons p rest ih =>
+    intro b ⟨hp, hr⟩ a ha
+    cases ha with
+    | head => exact ⟨p, hp, Anc.refl _⟩
+    | tail _ hm =>
+      obtain ⟨q, hq, haq⟩ := ih p hr a hm
+      exact ⟨p, hp, Anc.trans haq (Anc.step hq (Anc.refl _))⟩
+
+theorem ancList_inU (h : WF U W) {l : List Block} {b : Block} (hl : AncList U b l) :
+    ∀ a ∈ l, InU U a := by
+  intro a ha
+  obtain ⟨p, hp, hap⟩ := ancList_anc h l b hl a ha
+  exact Anc.inU h hap (inU_of_lookup h hp)
+
+theorem ancList_mem_anc (h : WF U W) {l : List Block} {b : Block} (hl : AncList U b l) :
+    ∀ a ∈ l, Anc U a b := by
+  intro a ha
+  obtain ⟨p, hp, hap⟩ := ancList_anc h l b hl a ha
+  exact Anc.step hp hap
+
+theorem lastOf_cons (b p : Block) (rest : List Block) : lastOf b (p :: rest) = lastOf p rest := by
+  cases rest with
+  | nil => simp [lastOf]
+  | cons q r =>
+    simp only [lastOf, List.getLast?_cons_cons]
+    cases hg : (q :: r).getLast? with
+    | none => simp at hg
+    | some x => simp
+
+theorem ancList_gen : ∀ (l : List Block) (b : Block), AncList U b l → (lastOf b l).height = 0 := by
+  intro l
+  induction l with
+  | nil => intro b hb; simpa [lastOf, AncList] using hb
+  | cons p rest ih => intro b ⟨_, hr⟩; rw [lastOf_cons]; exact ih p hr
+
+theorem ancList_sorted (h : WF U W) : ∀ (l : List Block) (b : Block), InU U b → AncList U b l →
+    (b :: l).Pairwise (fun a c => c.ts ≤ a.ts ∧ c.height < a.height) := by
+  intro l
+  induction l with
+  | nil => intro b _ _; simp
+  | cons p rest ih =>
+    intro b hb hl
+    refine List.pairwise_cons.mpr ⟨fun a ha => ?_, ih p (inU_of_lookup h hl.1) hl.2⟩
+    obtain ⟨q, hq, haq⟩ := ancList_anc h (p :: rest) b hl a ha
+    have h1 := h.link b q hb hq
+    have h2 := Anc.le h haq (inU_of_lookup h hq)
+    omega
+
+theorem ancList_complete (h : WF U W) : ∀ (l : List Block) (b : Block), InU U b → AncList U b l →
+    ∀ A, Anc U A b → A = b ∨ A ∈ l := by
+  intro l
+  induction l with
+  | nil =>
+    intro b hb h0 A hA
+    cases hA with
+    | refl => exact Or.inl rfl
+    | step hp _ => have := h.link b _ hb hp; simp [AncList] at h0; omega
+  | cons p rest ih =>
+    intro b hb ⟨hp, hr⟩ A hA
+    cases hA with
+    | refl => exact Or.inl rfl
+    | step hp2 hA2 =>
+      rw [hp] at hp2; cases hp2
+      rcases ih p (inU_of_lookup h hp) hr A hA2 with rfl | hm
+      · exact Or.inr List.mem_cons_self
+      · exact Or.inr (List.mem_cons_of_mem _ hm)
+
+/-- State form of `closed_covers_min`. -/
+theorem covers_of_closed {c : Client} (hc : CInv start anc c) (hok : ClosedOK true c)
+    (hsorted : (start :: anc).Pairwise (fun a b => b.ts ≤ a.ts ∧ b.height < a.height))
+    (hcl : c.isClosed true = true) : ∀ A ∈ anc, c.min ≤ A.ts → A ∈ c.emitted := by
+  intro A hA hmin
+  obtain ⟨rest, h1, h2, _⟩ := hc
+  have hs : stopCond true c.last c.min = true := by
+    cases hcc : c.closed with
+    | true => exact hok hcc
+    | false => simpa [Client.isClosed, hcc] using hcl
+  have hreason : c.last.ts < c.min ∨ c.last.height = 0 := by simpa [stopCond] using hs
+  rw [h1] at hA
+  rcases List.mem_append.mp hA with hm | hm
+  · exact hm
+  · exfalso
+    have hsplit : start :: anc = (start :: c.emitted) ++ rest := by rw [h1]; simp
+    rw [hsplit] at hsorted
+    have hrel := (List.pairwise_append.mp hsorted).2.2 _ (lastOf_mem start _) A hm
+    rw [← h2] at hrel
+    rcases hreason with hlt | h0 <;> omega
+
+theorem pb_min (fixed : Bool) : ∀ (raws : List Raw) (c : Client) (exp : Nat),
+    (processBlocks fixed parse c exp raws).min = c.min := by
+  intro raws
+  induction raws with
+  | nil => intro c exp; simp [processBlocks]
+  | cons raw rs ih =>
+    intro c exp
+    unfold processBlocks
+    cases parse raw with
+    | none => rfl
+    | some b =>
+      simp only []
+      by_cases hid : exp ≠ b.id
+      · rw [if_pos hid]
+      · rw [if_neg hid]
+        by_cases hs : stopCond fixed b c.min = true
+        · rw [if_pos hs]
+        · rw [if_neg hs]; rw [ih]
+
+theorem step_min (fixed : Bool) (c : Client) (ev : Event) :
+    (c.step fixed parse ev).min = c.min ∨ (c.step fixed parse ev).min = ev.newMin := by
+  unfold Client.step
+  cases c.isClosed fixed with
+  | true => exact Or.inl rfl
+  | false =>
+    simp only [Bool.false_eq_true, if_false]
+    cases ev.resp with
+    | err => exact Or.inr rfl
+    | blocks raws => right; rw [pb_min]
+
+theorem oldestAllowed_mono {a b : Int} (hab : a ≤ b) : oldestAllowed W a ≤ oldestAllowed W b := by
+  unfold oldestAllowed; omega
+
+/-- One operation of the syncer as the environment sees it. -/
+inductive SOp where
+  | ev (r : Resp)
+  | tgt (t : Block)
+
+def stepOp (parse : Raw → Option Block) (failAt : Option Nat) (W : Int) (s : Sync) : SOp → Sync
+  | .ev r => s.step true parse failAt { newMin := s.effMin none, resp := r }
+  | .tgt t => s.target W t
+
+def runOps (parse : Raw → Option Block) (failAt : Option Nat) (W : Int) (s : Sync) :
+    List SOp → Sync
+  | [] => s
+  | op :: rest => runOps parse failAt W (stepOp parse failAt W s op) rest
+
+/-- the sync target after the operations -/
+def curTarget : Block → List SOp → Block
+  | t, [] => t
+  | t, .ev _ :: rest => curTarget t rest
+  | _, .tgt t' :: rest => curTarget t' rest
+
+/-- every forward target is a tree block extending the previous target -/
+def TargetsOK (U : Universe) : Block → List SOp → Prop
+  | _, [] => True
+  | t, .ev _ :: rest => TargetsOK U t rest
+  | t, .tgt t' :: rest => InU U t' ∧ U t'.parent = some t ∧ TargetsOK U t' rest
+
+/-- What the consumer does with a list of freshly emitted blocks. -/
+theorem consume_spec (failAt : Option Nat) : ∀ (l : List Block) (s : Sync),
+    ∃ k, k ≤ l.length ∧
+      (Sync.consume failAt s l).saved = s.saved ++ l.take k ∧
+      (Sync.consume failAt s l).consumed = s.consumed + k ∧
+      ((Sync.consume failAt s l).failed = false → k = l.length ∧ s.failed = false) ∧
+      (Sync.consume failAt s l).client = s.client ∧ (Sync.consume failAt s l).oldest = s.oldest ∧
+      (Sync.consume failAt s l).fwdDone = s.fwdDone ∧
+      (Sync.consume failAt s l).pendingMin = s.pendingMin := by
+  intro l
+  induction l with
+  | nil => intro s; exact ⟨0, by simp, by simp [Sync.consume], by simp [Sync.consume],
+            fun hf => ⟨rfl, by simpa [Sync.consume] using hf⟩, rfl, rfl, rfl, rfl⟩
+  | cons b rest ih =>
+    intro s
+    unfold Sync.consume
+    by_cases hfail : s.failed = true
+    · simp only [hfail, if_true]
+      exact ⟨0, by simp, by simp, by simp, fun hf => by simp_all, by simp, by simp, by simp, by simp⟩
+    · simp only [hfail, Bool.false_eq_true, if_false]
+      by_cases hfa : (failAt == some s.consumed) = true
+      · simp only [hfa, if_true]
+        exact ⟨0, by simp, by simp, by simp, fun hf => by simp at hf, by simp, by simp, by simp, by simp⟩
+      · simp only [hfa, Bool.false_eq_true, if_false]
+        obtain ⟨k, hk, h1, h2, h3, h4, h5, h6, h7⟩ := ih
+          { s with vw := acceptHistorical s.vw b, saved := s.saved ++ [b], consumed := s.consumed + 1, failed := false }
+        refine ⟨k + 1, by simp; omega, ?_, ?_, ?_, h4, h5, h6, h7⟩
+        · rw [h1]; simp
+        · rw [h2]; simp; omega
+        · intro hf
+          have := h3 hf
+          exact ⟨by simp; omega, by simpa using hfail⟩
+
+/-- Soundness of the tracked set: every stored (id, expiry) was tracked initially (`base`) or is
+a tx of one of the blocks `got` given to the window. -/
+def Src (base : Seen) (got : List Block) (s : Seen) : Prop :=
+  ∀ j e, s.get j = some e → base.get j = some e ∨ ∃ A ∈ got, ∃ x ∈ A.txs, x.id = j ∧ x.expiry = e
+
+theorem src_mono {base s : Seen} {got got' : List Block} (hsub : ∀ b ∈ got, b ∈ got')
+    (hs : Src base got s) : Src base got' s := by
+  intro j e hg
+  rcases hs j e hg with h1 | ⟨A, hA, hx⟩
+  · exact Or.inl h1
+  · exact Or.inr ⟨A, hsub A hA, hx⟩
+
+theorem src_addAll {base s : Seen} {got : List Block} (b : Block) (hs : Src base got s) :
+    Src base (b :: got) (s.addAll b.txs) := by
+  intro j e hg
+  rcases addAll_get_cases hg with h1 | ⟨x, hx, h2, h3⟩
+  · exact (src_mono (fun a ha => List.mem_cons_of_mem _ ha) hs) j e h1
+  · exact Or.inr ⟨b, List.mem_cons_self, x, hx, h2, h3⟩
+
+theorem src_accept {base : Seen} {v : VW} {got : List Block} (b : Block) (hs : Src base got v.seen) :
+    Src base (b :: got) (accept v b).seen := by
+  apply src_addAll
+  intro j e hg
+  exact hs j e (setMin_get.mp hg).1
+
+theorem src_fold {base : Seen} {g : List Block} : ∀ (L : List Block) (v : VW), Src base g v.seen →
+    (∀ b ∈ L, b ∈ g) → Src base g (L.foldl accept v).seen := by
+  intro L
+  induction L with
+  | nil => intro v hs _; exact hs
+  | cons b rest ih =>
+    intro v hs hL
+    refine ih (accept v b) ?_ (fun x hx => hL x (List.mem_cons_of_mem _ hx))
+    refine src_mono (fun a ha => ?_) (src_accept b hs)
+    cases ha with
+    | head => exact hL b List.mem_cons_self
+    | tail _ hm => exact hm
+
+/-- The invariant of the composed machine. `chron` = the blocks `populate` found locally at
+`Start(t0)`, `oldest` its first (oldest) element, `anc` the real ancestry below `oldest`. -/
+structure SI (U : Universe) (W : Int) (parse : Raw → Option Block) (anc chron : List Block)
+    (base : Seen) (t0 oldest : Block) (s : Sync) (T : Block) (got : List Block) : Prop where
+  fwd : Fwd U W oldest s.vw T got
+  src : Src base got s.vw.seen
+  old : s.oldest = oldest
+  chronSub : ∀ b ∈ chron, b ∈ got
+  j3 : ∀ A, Anc U A T → A ∈ got ∨ Anc U A t0
+  tsMono : t0.ts ≤ T.ts
+  fwdD : s.fwdDone = true → forwardRule W oldest T = true
+  savedPre : s.saved <+: anc
+  savedGot : ∀ b ∈ s.saved, b ∈ got
+  gotChain : ∀ b ∈ got, Anc U b T
+  clNone : s.client = none → ∀ A, Anc U A t0 → oldestAllowed W t0.ts ≤ A.ts → A ∈ chron
+  clSome : ∀ c, s.client = some c →
+    CInv oldest anc c ∧ ClosedOK true c ∧ c.min ≤ oldestAllowed W T.ts ∧
+    (∀ m, s.pendingMin = some m → m ≤ oldestAllowed W T.ts) ∧
+    s.consumed ≤ c.emitted.length ∧ s.saved = c.emitted.take s.consumed ∧
+    (s.failed = false → s.consumed = c.emitted.length)
+
+theorem populate_facts (h : WF U W) {idx : Index} (hidx : ∀ i b, idx i = some b → U i = some b)
+    {v0 v : VW} {t0 : Block} {fuel : Nat} {chron : List Block} {full : Bool} (hT : InU U t0)
+    (hpop : populate idx W v0 fuel t0 = (v, chron, full)) :
+    chron.head? = some (chron.head?.getD t0) ∧ (chron.head?.getD t0) ∈ chron ∧
+    (∀ b ∈ chron, Anc U b t0) ∧
+    (∀ A, Anc U A t0 → A ∈ chron ∨ Anc U A (chron.head?.getD t0)) ∧
+    (full = true → ∀ A, Anc U A t0 → oldestAllowed W t0.ts ≤ A.ts → A ∈ chron) := by
+  unfold populate at hpop
+  have e := Prod.mk.inj hpop
+  have e2 := Prod.mk.inj e.2
+  obtain ⟨pre, hch, hanc, hlow, hcov⟩ := populateWalk_chain h hidx (oldestAllowed W t0.ts) fuel t0 [t0] _ _ hT
+    (rfl : populateWalk idx (oldestAllowed W t0.ts) fuel t0 [t0] = (_, _))
+  obtain ⟨pre2, hch2, _, hfull⟩ := populateWalk_spec h hidx (oldestAllowed W t0.ts) fuel t0 [t0] _ _ hT
+    (rfl : populateWalk idx (oldestAllowed W t0.ts) fuel t0 [t0] = (_, _))
+  rw [e2.1] at hch hch2
+  have hpre : pre2 = pre := by
+    have := hch.symm.trans hch2
+    exact (List.append_cancel_right this).symm
+  subst hpre
+  rw [e2.2] at hfull
+  have hhd : chron.head?.getD t0 = pre2.head?.getD t0 := by
+    rw [hch]; cases pre2 <;> simp
+  rw [hhd]
+  have hall : ∀ b ∈ chron, Anc U b t0 := by
+    intro b hb; rw [hch] at hb
+    rcases List.mem_append.mp hb with hb | hb
+    · exact hanc b hb
+    · have : b = t0 := by simpa using hb
+      subst this; exact Anc.refl _
+  refine ⟨by rw [hch]; cases pre2 <;> simp, by rw [hch]; cases pre2 <;> simp, hall, fun A hA => ?_,
+    fun hf A hA hle => ?_⟩
+  · rcases hcov A hA with rfl | hm | hlo
+    · exact Or.inl (by rw [hch]; simp)
+    · exact Or.inl (by rw [hch]; exact List.mem_append.mpr (Or.inl hm))
+    · exact Or.inr hlo
+  · rcases hfull hf A hA hle with rfl | hm
+    · rw [hch]; simp
+    · rw [hch]; exact List.mem_append.mpr (Or.inl hm)
+
+/-- `fwd_of_consume` with the origin of the new blocks. -/
+theorem fwd_of_consume' {oldest : Block} {t : Block} (failAt : Option Nat) :
+    ∀ (l : List Block) (s : Sync) (got : List Block), Fwd U W oldest s.vw t got →
+      (∀ b ∈ l, InU U b) → ∃ got', Fwd U W oldest (Sync.consume failAt s l).vw t got' ∧
+        (∀ b ∈ got, b ∈ got') ∧ (∀ b ∈ got', b ∈ got ∨ b ∈ l) ∧
+        (∀ b ∈ (Sync.consume failAt s l).saved, b ∈ s.saved ∨ b ∈ got') ∧
+        (∀ base, Src base got s.vw.seen → Src base got' (Sync.consume failAt s l).vw.seen) := by
+  intro l
+  induction l with
+  | nil => intro s got hf _; exact ⟨got, hf, fun _ hb => hb, fun _ hb => Or.inl hb, fun b hb => Or.inl hb, fun _ hs => hs⟩
+  | cons b rest ih =>
+    intro s got hf hl
+    unfold Sync.consume
+    by_cases hfail : s.failed = true
+    · simp only [hfail, if_true]
+      exact ⟨got, hf, fun _ hb => hb, fun _ hb => Or.inl hb, fun b hb => Or.inl hb, fun _ hs => hs⟩
+    · simp only [hfail, Bool.false_eq_true, if_false]
+      by_cases hfa : (failAt == some s.consumed) = true
+      · simp only [hfa, if_true]
+        exact ⟨got, hf, fun _ hb => hb, fun _ hb => Or.inl hb, fun b hb => Or.inl hb, fun _ hs => hs⟩
+      · simp only [hfa, Bool.false_eq_true, if_false]
+        obtain ⟨got', hf', hsub, horig, hsaved, hsrc⟩ := ih
+          { s with vw := acceptHistorical s.vw b, saved := s.saved ++ [b], consumed := s.consumed + 1, failed := false }
+          (b :: got) (Fwd.hist hf (hl b List.mem_cons_self)) (fun x hx => hl x (List.mem_cons_of_mem _ hx))
+        refine ⟨got', hf', fun x hx => hsub x (List.mem_cons_of_mem _ hx), fun x hx => ?_, fun x hx => ?_,
+          fun base hs => hsrc base (src_addAll b hs)⟩
+        · rcases horig x hx with h1 | h1
+          · cases h1 with
+            | head => exact Or.inr List.mem_cons_self
+            | tail _ hm => exact Or.inl hm
+          · exact Or.inr (List.mem_cons_of_mem _ h1)
+        · rcases hsaved x hx with h1 | h1
+          · rcases List.mem_append.mp h1 with h2 | h2
+            · exact Or.inl h2
+            · have : x = b := by simpa using h2
+              subst this; exact Or.inr (hsub _ List.mem_cons_self)
+          · exact Or.inr h1
+
+variable {anc chron : List Block} {t0 oldest : Block} {parse : Raw → Option Block} {base : Seen}
+
+theorem si_tgt (h : WF U W) {s : Sync} {T t' : Block} {got : List Block}
+    (hs : SI U W parse anc chron base t0 oldest s T got) (hb : InU U t') (hpar : U t'.parent = some T) :
+    SI U W parse anc chron base t0 oldest (s.target W t') t' (t' :: got) := by
+  have hlk := h.link t' T hb hpar
+  have hvw : (s.target W t').vw = accept s.vw t' := by unfold Sync.target; split <;> rfl
+  have hsv : (s.target W t').saved = s.saved := by unfold Sync.target; split <;> rfl
+  have hcl : (s.target W t').client = s.client := by unfold Sync.target; split <;> rfl
+  have hol : (s.target W t').oldest = s.oldest := by unfold Sync.target; split <;> rfl
+  have hco : (s.target W t').consumed = s.consumed := by unfold Sync.target; split <;> rfl
+  have hfa : (s.target W t').failed = s.failed := by unfold Sync.target; split <;> rfl
+  have hmono := oldestAllowed_mono (W := W) hlk.2
+  refine ⟨by rw [hvw]; exact Fwd.target hs.fwd hb hpar, by rw [hvw]; exact src_accept t' hs.src,
+    by rw [hol]; exact hs.old,
+    fun b hb' => List.mem_cons_of_mem _ (hs.chronSub b hb'), ?_, by have := hs.tsMono; omega, ?_,
+    by rw [hsv]; exact hs.savedPre, fun b hb' => List.mem_cons_of_mem _ (hs.savedGot b (by rwa [hsv] at hb')),
+    ?_, fun hn => hs.clNone (by rwa [hcl] at hn), ?_⟩
+  · intro A hA
+    cases hA with
+    | refl => exact Or.inl List.mem_cons_self
+    | step hp2 hA2 =>
+      rw [hpar] at hp2; cases hp2
+      rcases hs.j3 A hA2 with h1 | h1
+      · exact Or.inl (List.mem_cons_of_mem _ h1)
+      · exact Or.inr h1
+  · intro hfd
+    unfold Sync.target at hfd
+    split at hfd
+    · next hr => rw [← hs.old]; exact hr
+    · have := hs.fwdD hfd
+      simp only [forwardRule, decide_eq_true_eq] at this ⊢
+      omega
+  · intro b hb'
+    cases hb' with
+    | head => exact Anc.refl _
+    | tail _ hm => exact Anc.step hpar (hs.gotChain b hm)
+  · intro c hc
+    rw [hcl] at hc
+    obtain ⟨h1, h2, h3, h4, h5, h6, h7⟩ := hs.clSome c hc
+    refine ⟨h1, h2, by omega, ?_, by rw [hco]; exact h5, by rw [hsv, hco]; exact h6,
+      by rw [hfa, hco]; exact h7⟩
+    intro m hm
+    unfold Sync.target at hm
+    split at hm
+    · have := h4 m hm; omega
+    · simp at hm; omega
+
+theorem si_ev (h : WF U W) (hanc : AncList U oldest anc) (hinj : IdInj parse anc)
+    (failAt : Option Nat) {s : Sync} {T : Block} {got : List Block}
+    (hs : SI U W parse anc chron base t0 oldest s T got) (r : Resp) :
+    ∃ got', SI U W parse anc chron base t0 oldest
+      (s.step true parse failAt { newMin := s.effMin none, resp := r }) T got' := by
+  unfold Sync.step
+  by_cases hfd : s.fwdDone = true
+  · rw [if_pos hfd]; exact ⟨got, hs⟩
+  · rw [if_neg hfd]
+    cases hcl : s.client with
+    | none => exact ⟨got, hs⟩
+    | some c =>
+      simp only []
+      obtain ⟨hci, hok, hmin, hpend, hcons, hsaved, hall⟩ := hs.clSome c hcl
+      have hgen := ancList_gen anc oldest hanc
+      obtain ⟨ev, hev⟩ : ∃ ev : Event, ev = { newMin := s.effMin none, resp := r } := ⟨_, rfl⟩
+      rw [← hev]
+      have hci' := step_inv (parse := parse) hinj hgen hci ev
+      have hok' := step_closedOK (parse := parse) true c ev hok
+      obtain ⟨new, hnew⟩ := emitted_grows_step (parse := parse) true c ev
+      have hmin' : (c.step true parse ev).min ≤ oldestAllowed W T.ts := by
+        rcases step_min (parse := parse) true c ev with e | e
+        · rw [e]; exact hmin
+        · rw [e, hev]
+          show s.effMin none ≤ _
+          unfold Sync.effMin
+          cases hp : s.pendingMin with
+          | some m => simp only [hcl]; exact hpend m hp
+          | none => simp only [hcl]; exact hmin
+      have hpre' : (c.step true parse ev).emitted <+: anc := by
+        obtain ⟨rest, h1, _, _⟩ := hci'; exact ⟨rest, h1.symm⟩
+      have hlU : ∀ b ∈ (c.step true parse ev).emitted.drop s.consumed, InU U b := fun b hb =>
+        ancList_inU h hanc b (hpre'.subset (List.mem_of_mem_drop hb))
+      obtain ⟨k, hk, c1, c2, c3, c4, c5, c6, c7⟩ := consume_spec failAt
+        ((c.step true parse ev).emitted.drop s.consumed)
+        { s with client := some (c.step true parse ev), pendingMin := none }
+      obtain ⟨got', hf', hsub, horig, hsv, hsrc⟩ := fwd_of_consume' (U := U) (W := W) failAt
+        ((c.step true parse ev).emitted.drop s.consumed)
+        { s with client := some (c.step true parse ev), pendingMin := none } got hs.fwd hlU
+      have hlen : ((c.step true parse ev).emitted.drop s.consumed).length =
+          (c.step true parse ev).emitted.length - s.consumed := by simp
+      have hge : c.emitted.length ≤ (c.step true parse ev).emitted.length := by rw [hnew]; simp
+      have hsaved' : (Sync.consume failAt { s with client := some (c.step true parse ev), pendingMin := none }
+          ((c.step true parse ev).emitted.drop s.consumed)).saved =
+          (c.step true parse ev).emitted.take (s.consumed + k) := by
+        rw [c1, List.take_add]
+        congr 1
+        show s.saved = _
+        rw [hsaved, hnew, List.take_append_of_le_length hcons]
+      have hanO := (fwd_inv h hs.fwd).anc
+      have c2' : (Sync.consume failAt { s with client := some (c.step true parse ev), pendingMin := none }
+          ((c.step true parse ev).emitted.drop s.consumed)).consumed = s.consumed + k := c2
+      have hk' : k ≤ (c.step true parse ev).emitted.length - s.consumed := by rw [← hlen]; exact hk
+      refine ⟨got', hf', hsrc base hs.src, (by rw [c5]; exact hs.old), fun b hb => hsub b (hs.chronSub b hb),
+        fun A hA => (hs.j3 A hA).imp (hsub A) id, hs.tsMono,
+        (fun hx => by rw [c6] at hx; exact hs.fwdD hx),
+        ?_, ?_, ?_, (fun hn => by rw [c4] at hn; cases hn), ?_⟩
+      · rw [hsaved']; exact (List.take_prefix _ _).trans hpre'
+      · intro b hb
+        rcases hsv b hb with h1 | h1
+        · exact hsub b (hs.savedGot b h1)
+        · exact h1
+      · intro b hb
+        rcases horig b hb with h1 | h1
+        · exact hs.gotChain b h1
+        · exact Anc.trans (ancList_mem_anc h hanc b (hpre'.subset (List.mem_of_mem_drop h1))) hanO
+      · intro c' hc'
+        rw [c4] at hc'
+        cases hc'
+        refine ⟨hci', hok', hmin', (fun m hm => by rw [c7] at hm; cases hm), (by rw [c2']; omega),
+          (by rw [hsaved', c2']), fun hf => ?_⟩
+        have hkl := (c3 hf).1
+        rw [hlen] at hkl
+        rw [c2']; omega
+
+theorem si_run (h : WF U W) (hanc : AncList U oldest anc) (hinj : IdInj parse anc)
+    (failAt : Option Nat) : ∀ (ops : List SOp) (s : Sync) (T : Block) (got : List Block),
+    SI U W parse anc chron base t0 oldest s T got → TargetsOK U T ops →
+    ∃ got', SI U W parse anc chron base t0 oldest (runOps parse failAt W s ops) (curTarget T ops) got' := by
+  intro ops
+  induction ops with
+  | nil => intro s T got hs _; exact ⟨got, hs⟩
+  | cons op rest ih =>
+    intro s T got hs hops
+    cases op with
+    | ev r =>
+      obtain ⟨got', hs'⟩ := si_ev h hanc hinj failAt hs r
+      exact ih _ T got' hs' hops
+    | tgt t' =>
+      obtain ⟨hb, hpar, hrest⟩ := hops
+      exact ih _ t' _ (si_tgt h hs hb hpar) hrest
+
+theorem si_start (h : WF U W) {idx : Index} (hidx : ∀ i b, idx i = some b → U i = some b)
+    {v0 v : VW} {fuel : Nat} {full : Bool} (hT : InU U t0) (hp0 : Prov U v0.seen)
+    (hpop : populate idx W v0 fuel t0 = (v, chron, full)) (hold : oldest = chron.head?.getD t0)
+    (hanc : AncList U oldest anc) :
+    SI U W parse anc chron v0.seen t0 oldest (Sync.start idx W v0 fuel t0) t0 chron := by
+  obtain ⟨f1, _, f3, _, f5⟩ := populate_facts h hidx hT hpop
+  have hsrc : Src v0.seen chron v.seen := by
+    have hp := hpop
+    unfold populate at hp
+    have e := Prod.mk.inj hp
+    have e2 := Prod.mk.inj e.2
+    rw [← e.1, e2.1]
+    exact src_fold chron v0 (fun j e hg => Or.inl hg) (fun b hb => hb)
+  rw [← hold] at f1
+  have hs : Sync.start idx W v0 fuel t0 =
+      { vw := v, saved := [], failed := false, consumed := 0, oldest := oldest, fwdDone := false,
+        pendingMin := none,
+        client := if full then none else some (Client.init oldest (oldestAllowed W t0.ts)) } := by
+    unfold Sync.start
+    simp only [hpop, hold]
+  rw [hs]
+  refine ⟨Fwd.start hidx hT hp0 hpop f1, hsrc, rfl, fun b hb => hb, fun A hA => Or.inr hA, Int.le_refl _,
+    (fun hx => by simp at hx), List.nil_prefix, (fun b hb => by simp at hb), f3, ?_, ?_⟩
+  · intro hn
+    cases full with
+    | true => exact f5 rfl
+    | false => simp at hn
+  · intro c hc
+    cases full with
+    | true => simp at hc
+    | false =>
+      simp only [Bool.false_eq_true, if_false, Option.some.injEq] at hc
+      subst hc
+      exact ⟨cinv_init (ancList_linked h anc oldest hanc) _, (fun hx => by simp [Client.init] at hx),
+        Int.le_refl _, (fun m hm => by simp at hm), Nat.le_refl _, by simp [Client.init],
+        fun _ => by simp [Client.init]⟩
+
+/-- **C22, headline clause.** Start the syncer at target `t0` over any chain index that is a
+partial view of the block tree (`WF U W`), with `anc` the real hash-linked ancestry below the
+oldest locally available block and block ids injective in content for it (`IdInj`). Run ANY list
+of operations: peer answers (errors, arbitrary bytes, wrong / unlinked / out-of-order / forged
+blocks) interleaved with forward targets, each extending the previous one, with storage failing
+from any index on (`failAt`), the minimum timestamp being updated by the syncer as in the code.
+If the syncer then reports done (`Sync.done`: window complete from local blocks, forward rule
+fired, or the backfill channel closed and drained without storage failure), then
+* the window state satisfies the full C09 invariant at the current target `T`: every tx of `T` or
+  of any hash-linked ancestor of `T` that could still be included (`T.ts ≤ expiry`, hence every
+  ancestor back past the validity window, or to genesis) is tracked, the last-accepted height is
+  `T`'s, and everything tracked is a tx of a tree block;
+* what was saved is a prefix, in order, of the real ancestry (nothing unparsable, unlinked or
+  out of order is ever saved); every block `got` whose txs were given to the window lies on `T`'s
+  hash-linked chain; and the tracked set is sound: every tracked (id, expiry) was tracked
+  initially (`v0`) or is a non-zero-expiry tx of one of those blocks (`Src`). Together with the
+  first item: tracked = what was tracked locally ∪ txs of `T`'s hash-linked ancestors reached,
+  minus what `Accept` evicted as expired, and it contains every tx that is still includable. -/
+theorem backfill_done_implies_window_covered (h : WF U W) {idx : Index}
+    (hidx : ∀ i b, idx i = some b → U i = some b) {v0 : VW} {fuel : Nat} (hT : InU U t0)
+    (hp0 : Prov U v0.seen)
+    (hanc : AncList U (Sync.start idx W v0 fuel t0).oldest anc) (hinj : IdInj parse anc)
+    (failAt : Option Nat) (ops : List SOp) (hops : TargetsOK U t0 ops) :
+    let s := runOps parse failAt W (Sync.start idx W v0 fuel t0) ops
+    let T := curTarget t0 ops
+    s.done true = true →
+      SeenInv U s.vw T ∧ s.saved <+: anc ∧
+      ∃ got, (∀ b ∈ s.saved, b ∈ got) ∧ (∀ b ∈ got, Anc U b T) ∧ Src v0.seen got s.vw.seen ∧
+        Fwd U W s.oldest s.vw T got := by
+  intro s T hdone
+  -- unpack the start
+  obtain ⟨v, chron, full, hpop⟩ : ∃ v chron full, populate idx W v0 fuel t0 = (v, chron, full) :=
+    ⟨_, _, _, rfl⟩
+  have hold : (Sync.start idx W v0 fuel t0).oldest = chron.head?.getD t0 := by
+    unfold Sync.start; simp only [hpop]
+  obtain ⟨oldest, hoe⟩ : ∃ o, o = (Sync.start idx W v0 fuel t0).oldest := ⟨_, rfl⟩
+  rw [← hoe] at hanc
+  have hold' : oldest = chron.head?.getD t0 := hoe.trans hold
+  obtain ⟨_, f2, _, f4, _⟩ := populate_facts h hidx hT hpop
+  rw [← hold'] at f2 f4
+  have h0 := si_start (parse := parse) (anc := anc) h hidx hT hp0 hpop hold' hanc
+  obtain ⟨got, hs⟩ := si_run h hanc hinj failAt ops _ t0 chron h0 hops
+  have hfi := fwd_inv h hs.fwd
+  have hoU : InU U oldest := Anc.inU h hfi.anc hfi.inU
+  have hfw : Fwd U W s.oldest s.vw T got := by rw [hs.old]; exact hs.fwd
+  refine ⟨?_, hs.savedPre, got, hs.savedGot, hs.gotChain, hs.src, hfw⟩
+  by_cases hfd : s.fwdDone = true
+  · exact forward_done_implies_window_covered h hs.fwd (hs.fwdD hfd)
+  · -- backward completion or window complete from local blocks: coverage
+    apply window_covered_of_cover h hs.fwd
+    intro A hA hle
+    rcases hs.j3 A hA with hg | hA0
+    · exact hg
+    · have hmono := oldestAllowed_mono (W := W) hs.tsMono
+      cases hcl : s.client with
+      | none => exact hs.chronSub A (hs.clNone hcl A hA0 (by omega))
+      | some c =>
+        obtain ⟨hci, hok, hmin, _, _, hsaved, hall⟩ := hs.clSome c hcl
+        have hd : c.isClosed true = true ∧ s.failed = false := by
+          have := hdone
+          simp only [Sync.done, hcl] at this
+          simp only [Bool.not_eq_true] at hfd
+          simpa [hfd] using this
+        rcases f4 A hA0 with hc | hlo
+        · exact hs.chronSub A hc
+        · rcases ancList_complete h anc oldest hoU hanc A hlo with rfl | hm
+          · exact hs.chronSub _ f2
+          · have hem := covers_of_closed hci hok (ancList_sorted h anc oldest hoU hanc) hd.1 A hm (by omega)
+            apply hs.savedGot
+            rw [hsaved, hall hd.2, List.take_length]
+            exact hem
+
+/-! Non-vacuity of the hypotheses of the headline theorem on the blocks of the counterexample
+below: the real ancestry of `O` (the oldest local block) and a forward target extending `T0`. -/
+example : AncList (fun i => if i = 0 then some ⟨0, 999, 0, 0, []⟩ else
+      if i = 1 then some ⟨1, 0, 5, 1, [⟨7, 15⟩]⟩ else none)
+    ⟨2, 1, 5, 2, []⟩ [⟨1, 0, 5, 1, [⟨7, 15⟩]⟩, ⟨0, 999, 0, 0, []⟩] := by
+  simp [AncList]
+
+example : TargetsOK (fun i => if i = 4 then some ⟨4, 3, 15, 4, []⟩ else
+      if i = 3 then some ⟨3, 2, 6, 3, []⟩ else none) ⟨3, 2, 6, 3, []⟩
+    [.ev .err, .tgt ⟨4, 3, 15, 4, []⟩, .ev (.blocks [[1, 2]])] := by
+  simp [TargetsOK, InU]
 
 end forward
 
